@@ -48,10 +48,11 @@ def check(run, F, tier):
         for p in res["paths"]:
             if p.kind != "return":
                 continue
+            own = conn.own_effect_indices(p)
             for i, ev in conn.pushes(p, "RequestSendPacket"):
-                site = p.effects[i][3]
-                if site[0] != f["path"]:
-                    continue   # emissions of callees (send_stored) are checked in their own rule
+                if i not in own:
+                    continue   # emissions of nested send handlers / send_stored are checked in their own rule; the handler's
+                               # own emission may sit in a private helper it delegates to
                 n += 1
                 pk = conn.expand_all(interned, ev[3][0])
                 q = None
